@@ -23,14 +23,15 @@ CASE_TIMEOUT = 120
 WALL = {"quick": 900, "thorough": 7200}
 REQUIRED = {"residue_edges_checked": 2000, "edges_realised": 300, "edges_missing": 300, "warnings_seen": 300,
             "gen_coords_refusals": 20, "gen_coords_accepts": 3, "atom_removal_cases": 3,
-            "asked_before_and_after_links": 100, "library_cases": 100}
+            "asked_before_and_after_links": 100, "library_cases": 100, "gen_coords_gate_with_start_coordinates": 100, "dsdna_runs": 100,
+            "dsdna_missing_in_second_strand": 30}
 MSG = re.compile(r"Missing a link between residue (\d+) (\S+) and residue (\d+) (\S+)\.")
 ADDS = {"n": 0}
 
 
 def plan(tier, seed):
     n = 3000 if tier == "quick" else 40000
-    return [["miss", i] for i in range(n)] + [["library", i] for i in range(n // 8)]
+    return [["miss", i] for i in range(n)] + [["library", i] for i in range(n // 8)] + [["dsdna", i] for i in range(n // 15)]
 
 
 def setup():
@@ -63,10 +64,75 @@ def top_for(itp_name, molname, count=1, others=None):
     return "\n".join(lines) + "\n"
 
 
+def run_dsdna(cid, rng, workdir, res):
+    """gen_params -dsdna on a DNA force field whose backbone link only knows some of the residue names: every
+    backbone step of either strand is bonded or reported, the complementary strand included"""
+    from ..monitors import pipeline
+    from ..oracle import itp_min
+    from .C19 import comp_name, ONE
+    names = ["D" + b + s_ for b in "ACGT" for s_ in ("", "5", "3")]
+    known = set(rng.sample(names, rng.randint(5, 12)))
+    ff = []
+    for nm in names:
+        ff += ["[ moleculetype ]", "%s 1" % nm, "[ atoms ]", "1 P1 1 %s BB 1 0.0 72.0" % nm]
+    ff += ["[ link ]", 'resname "%s"' % "|".join(sorted(known)), "[ bonds ]", "BB +BB 1 0.35 1000"]
+    (Path(workdir) / "dna.ff").write_text("\n".join(ff) + "\n")
+    n = rng.randint(2, 14)
+    seq = "".join(rng.choice("ACGT") for _ in range(n))
+    p = Path(workdir) / "d.fasta"
+    p.write_text(">DNA strand\n" + seq + "\n")
+    out = Path(workdir) / "ds.itp"
+    run = pipeline.run_gen_params(name="DS", outpath=out, inpath=[Path(workdir) / "dna.ff"], lib=None, seq=None, seq_file=p,
+                                  dsdna=True)
+    res["sig"] = sig_of([seq, sorted(known)])
+    res["sample"] = {"sequence": seq, "link_knows": sorted(known), "stratum": "gen_params -dsdna"}
+    res["nontrivial"] = True
+    w = {"sequence": seq, "link_knows": sorted(known)}
+    if run["status"] != "ok":
+        res["status"] = "rejected"
+        violation(res, "rejects-valid-input:dsdna:%s" % run.get("exc_type"), run["error"], w)
+        return res
+    first = [ONE[c] for c in seq]
+    first[0] += "5"
+    first[-1] += "3"
+    allnames = first + [comp_name(first[n - k]) for k in range(1, n + 1)]
+    exp_missing = set()
+    steps = [(i, i + 1) for i in range(1, n)] + [(i, i + 1) for i in range(n + 1, 2 * n)]
+    for a, b in steps:
+        if not (allnames[a - 1] in known and allnames[b - 1] in known):
+            exp_missing.add(frozenset(((a, allnames[a - 1]), (b, allnames[b - 1]))))
+    got = set()
+    for m in run["missing"]:
+        mm = MSG.search(m)
+        if mm:
+            got.add(frozenset(((int(mm.group(1)), mm.group(2)), (int(mm.group(3)), mm.group(4)))))
+    bump(res, "dsdna_runs")
+    bump(res, "residue_edges_checked", len(steps))
+    bump(res, "edges_missing", len(exp_missing))
+    bump(res, "edges_realised", len(steps) - len(exp_missing))
+    bump(res, "warnings_seen", len(got))
+    if exp_missing & {e for e in exp_missing if min(x[0] for x in e) > n}:
+        bump(res, "dsdna_missing_in_second_strand")
+    for pair in exp_missing - got:
+        violation(res, "neither-bond-nor-warning:dsdna", "residues %s are neighbours in a strand, the backbone link does not know "
+                  "them, and no missing-link warning names them" % sorted(pair), w)
+    for pair in got - exp_missing:
+        violation(res, "both-bond-and-warning:dsdna", "warning for %s although the backbone link applies (or they are not "
+                  "neighbours)" % sorted(pair), w)
+    obs = itp_min.read_itp(str(out))
+    nb = sum(obs["inter"].get("bonds", {}).values())
+    if nb != len(steps) - len(exp_missing):
+        violation(res, "bond-count:dsdna", "%d backbone bonds written, %d steps are covered by the link" %
+                  (nb, len(steps) - len(exp_missing)), w)
+    return res
+
+
 def run_case(cid, rng, workdir):
     res = new_result()
+    if cid[0] == "dsdna":
+        return run_dsdna(cid, rng, workdir, res)
     case = paramcase.build(rng, profile="sensible", nmin=2, nmax=8, max_links=rng.choice([0, 1, 2, 3, 5]),
-                           layouts=["ff", "ff", "ff+itp", "itp+ff", "itp_dangling", "multi"],
+                           layouts=["ff", "ff", "ff+itp", "itp+ff", "itp_dangling", "multi"], p_explicit=0.2,
                            link_opts={"p_remove": 0.1, "p_nonedge": 0.15, "p_pattern": 0.15, "p_edge": 0.2,
                                       "linktypes": True, "nres": [2, 2, 2, 3]})
     if cid[0] == "library":
@@ -188,8 +254,20 @@ def run_case(cid, rng, workdir):
     connected = len(seen) == len(adj)
     cond_bonds = any(c for sec in ("bonds", "constraints") for (_a, _p, c) in obs["inter"].get(sec, {}))
     if (not connected and not cond_bonds) or (connected and not cond_bonds and rng.random() < 0.15):
+        others = rng.choice([None, "before", "after", "both"])
         with open(os.path.join(workdir, "sys.top"), "w") as fh:
-            fh.write(top_for("out.itp", "POLY", others=rng.choice([None, "before", "after", "both"])))
+            fh.write(top_for("out.itp", "POLY", others=others))
+        gate_kw = {}
+        if others in ("before", "both") and rng.random() < 0.5:
+            # start coordinates for the molecules listed before the tested one (-c): it still has to be built
+            rows = []
+            for m_ in range(2):
+                for a_, nm_ in enumerate(("W", "X")):
+                    rows.append("%5d%-5s%5s%5d%8.3f%8.3f%8.3f" % (1, "SOL", nm_, len(rows) + 1, 1.0 + 2.0 * m_, 1.0 + 0.3 * a_, 1.0))
+            with open(os.path.join(workdir, "start.gro"), "w") as fh:
+                fh.write("start\n%d\n%s\n   9.00000   9.00000   9.00000\n" % (len(rows), "\n".join(rows)))
+            gate_kw["coordpath"] = Path(workdir) / "start.gro"
+            bump(res, "gen_coords_gate_with_start_coordinates")
         from polyply import gen_coords
         from vermouth.file_writer import DeferredFileWriter
         import numpy as np
@@ -197,7 +275,7 @@ def run_case(cid, rng, workdir):
         outp = Path(workdir) / "sys.gro"
         err = None
         try:
-            gen_coords(toppath=Path(workdir) / "sys.top", outpath=outp, name="x", box=np.array([9.0, 9.0, 9.0]))
+            gen_coords(toppath=Path(workdir) / "sys.top", outpath=outp, name="x", box=np.array([9.0, 9.0, 9.0]), **gate_kw)
         except Exception as e:          # noqa
             err = e
             try:
